@@ -211,6 +211,13 @@ def _shard(ctx, rng, ovf):
         dtext = json.dumps(doc)
         base = gen.pfile(gen.gen_file(rng, doc, gen.Opts(types=True, calls=True, msgs=True, keys_filters=True, some_lets=True)))
         rtext = mutate(rng, base)
+        if t % 4 == 0:
+            # text in another script after the (likely) syntax error: comments and custom messages; whatever excerpt a diagnostic shows of the
+            # rest of the file, it is cut somewhere inside this
+            rtext += "\n" + " " * rng.randint(0, 5) + "# " + "日本語のコメント、設定値の説明。" * rng.randint(4, 14) + "\nrule zz_tail {\n    a exists <<メッセージ：値が不正です — " + "é" * rng.randint(0, 7) + "ü>>\n}\n"
+            if rng.random() < 0.5:
+                rtext = rtext.replace("{", "{ == ", 1) if rng.random() < 0.5 else ("rule broken { a == }\n" + rtext)
+            ctx.res.counts["mutated_rules_with_non_ascii_tail"] += 1
         case = {"kind": "pair", "rules": rtext, "data": dtext}
         pt = judge(ctx, "parse-tree", ctx.w.run({"k": "cli", "argv": ["parse-tree", "-p"], "stdin": rtext}), case, "mutated-rules")
         parses = pt is not None and pt.get("r") == "ok"
